@@ -10,6 +10,7 @@ import (
 	"github.com/akalin/gopar/par1"
 	"github.com/akalin/gopar/par2"
 
+	"verifsim/ref"
 	"verifsim/sched"
 )
 
@@ -102,6 +103,22 @@ func determinismMem(r *Run) {
 		w.Files[0].Data = data
 		base.Put(w.Path(0), data)
 		r.Probe("file>=1MiB")
+	}
+	if !par1Set && len(w.Files) >= 2 && t.Bool(1, 30, "file-id-twins") {
+		// two files whose PAR2 file ids agree in their most significant 32
+		// bits (found by a birthday search over names): the recovery set
+		// is ordered by file id, so near-ties are where an ordering bug hides
+		data := expandContent(ckRandom, t.Draw64(0, "twin-seed"), 20+t.Draw(40, "twin-size"), 4)
+		if a, b, ok := fileIDTwins(data, 1<<18); ok {
+			for k, name := range []string{a, b} {
+				base.Remove(w.Path(k))
+				w.Files[k].Name = name
+				w.Files[k].Data = data
+				base.Put(w.Path(k), data)
+			}
+			paths = w.FilePaths()
+			r.Probe("file-id-twins")
+		}
 	}
 	create("canonical", paths, w.Index, 1, SchedSpec{})
 	// an unrelated set created in between, in the same process: results
@@ -372,4 +389,21 @@ func determinismReal(r *Run) {
 	}
 	r.Class = fmt.Sprintf("real par1=%v nf=%d var=%v", par1Set, len(w.Files), uniqSorted(vars))
 	r.Nontriv = true
+}
+
+// fileIDTwins searches names twin%07d.bin for two whose PAR2 file ids
+// (MD5 of 16k-hash, length, name) share bytes 12..15, the most
+// significant ones in the format's ordering.
+func fileIDTwins(data []byte, n int) (string, string, bool) {
+	seen := make(map[uint32]int, n)
+	for i := 0; i < n; i++ {
+		name := fmt.Sprintf("twin%07d.bin", i)
+		id := ref.FileID(name, data)
+		key := uint32(id[12]) | uint32(id[13])<<8 | uint32(id[14])<<16 | uint32(id[15])<<24
+		if j, ok := seen[key]; ok {
+			return fmt.Sprintf("twin%07d.bin", j), name, true
+		}
+		seen[key] = i
+	}
+	return "", "", false
 }
